@@ -12,7 +12,7 @@ import (
 func init() {
 	register(&propDef{
 		ID:          "C08",
-		Explanation: "Ownership and value-identity rules for the exporter's sequence number and header bookkeeping, decided on SSA: (1) seqNumber has type uint32 (wrap-around is the type's) and is written only by the constructor (0) and by the one function that builds and writes IPFIX messages; (2) in that function the sequence number handed to CreateIPFIXMsg is F0 (the field at entry, plain or atomic load) on the non-data edge and F0 + set.GetNumberOfRecords() on the edge guarded by set.GetSetType() == Data, and the field is updated to exactly that value (atomic.AddUint32 or a plain store of the same sum) - templates never advance it, the header is built from the post-increment value; (3) CreateIPFIXMsg forwards its parameters unmodified: SetSequenceNum(seqNumber), SetObsDomainID(obsDomainID), SetExportTime(uint32(exportTime.Unix())), SetVersion(10); the export time is time.Now() evaluated in the send function at the call; the observation domain is ExportingProcess.obsDomainID, written only by the constructor from the caller's ObservationDomainID; (4) exactly one Write per call, outside any loop, given the whole built slice; the success return is Write's count on the edge where err == nil and count == len(slice); (5) imported from C14: no ExportingProcess field (e.g. a cached message buffer) is shared unsynchronised between the refresher goroutine and the API, which would let a refresh overwrite a message between build and Write. Not decided: the running equality over a whole session (follows by induction from the decided step), failed sends. Later additions: sender and stamping helper are separate roles (a helper may build the message, called exactly once, returning the builder's result); the header length equals the buffer written (C02's assembly rule).",
+		Explanation: "Ownership and value-identity rules for the exporter's sequence number and header bookkeeping, decided on SSA: (1) seqNumber has type uint32 (wrap-around is the type's) and is written only by the constructor (0) and by the one function that builds and writes IPFIX messages; (2) in that function the sequence number handed to CreateIPFIXMsg is F0 (the field at entry, plain or atomic load) on the non-data edge and F0 + set.GetNumberOfRecords() on the edge guarded by set.GetSetType() == Data, and the field is updated to exactly that value (atomic.AddUint32 or a plain store of the same sum) - templates never advance it, the header is built from the post-increment value; (3) CreateIPFIXMsg forwards its parameters unmodified: SetSequenceNum(seqNumber), SetObsDomainID(obsDomainID), SetExportTime(uint32(exportTime.Unix())), SetVersion(10); the export time is time.Now() evaluated in the send function at the call; the observation domain is ExportingProcess.obsDomainID, written only by the constructor from the caller's ObservationDomainID; (4) exactly one Write per call, outside any loop, given the whole built slice; the success return is Write's count on the edge where err == nil and count == len(slice); (5) imported from C14: no ExportingProcess field (e.g. a cached message buffer) is shared unsynchronised between the refresher goroutine and the API, which would let a refresh overwrite a message between build and Write. Not decided: the running equality over a whole session (follows by induction from the decided step), failed sends. Later additions: sender and stamping helper are separate roles (a helper may build the message, called exactly once, returning the builder's result); the header length equals the buffer written (C02's assembly rule). Round-six additions: every modification of the sequence number in the send function is under the data-set guard.",
 		Assume:      []string{"sync/atomic.AddUint32 returns the new value", "net.Conn.Write semantics", "time.Now is wall-clock"},
 		Run:         runC08,
 	})
@@ -265,6 +265,26 @@ func runC08(p *Prog, r *Report, tier string) {
 	default:
 		why = "the sequence number passed to CreateIPFIXMsg has an unrecognised shape"
 	}
+	// every modification of the field in the send function happens for data sets only (a second adjustment - a roll-back on
+	// failure, say - that is not under the same guard changes the number for template messages)
+	eachInstr(stamper, func(in ssa.Instruction) {
+		mod := false
+		switch x := in.(type) {
+		case *ssa.Store:
+			mod = isSeqField(x.Addr)
+		case *ssa.Call:
+			n := calleeName(&x.Call)
+			if strings.HasPrefix(n, "sync/atomic.") && !strings.HasPrefix(n, "sync/atomic.Load") && len(x.Call.Args) > 0 && isSeqField(x.Call.Args[0]) {
+				mod = true
+			}
+		}
+		if !mod {
+			return
+		}
+		d, ok := dataEdge(in.Block())
+		r.Check(ok && d, "R-VALUE.seq", fnKey(stamper)+": modification of the sequence number", p.instrPos(in), "under set.GetSetType() == Data",
+			"the sequence number is modified on a path that template sets take too: template messages (or their failures) change the number of data records accounted for", true)
+	})
 	r.Check(why == "", "R-VALUE.seq", construct, p.instrPos(cmCall), "F0 on the template edge, F0 + set.GetNumberOfRecords() (and the field updated to it) on the Data edge", why, true)
 
 	// (3) stamping
